@@ -1,5 +1,5 @@
 (* C10 — Building is deterministic, independent of entry order and read fragmentation *)
-From UV Require Import File.Builder Hamt.Build Hamt.SortProofs Dir.BuildProofs Hamt.TrieProofs Hamt.ShardDecode Hamt.Refine Hamt.Canon Base.Varint.
+From UV Require Import File.Builder Hamt.Build Hamt.SortProofs Dir.BuildProofs Hamt.TrieProofs Hamt.ShardDecode Hamt.Refine Hamt.Canon Hamt.BuildTotal Base.Varint.
 From Coq Require Import Permutation.
 Local Open Scope N_scope.
 
@@ -56,3 +56,13 @@ Theorem C10_directory_order_independent :
   build_dir entries = Ok r -> build_dir entries' = Ok r' -> r = r'.
 Proof. exact build_dir_order_independent. Qed.
 Print Assumptions C10_directory_order_independent.
+
+(* success itself is a property of the entry SET (no two entries agree on every hash slice the hash has room for),
+   so a successful sharded build is reproduced - same root, same size - by every permutation of the entries *)
+Theorem C10_sharded_build_reproduced : forall size lg, permitted size lg ->
+  forall H : bytes -> bytes, (forall k, wf_bytes (H k) = true) -> (forall k, length (H k) = 8%nat) ->
+  forall entries entries' r,
+  Forall (entry_ok H) entries -> NoDup (map e_name entries) -> Permutation entries entries' ->
+  build_sharded size HashMurmur3 entries = Ok r -> build_sharded size HashMurmur3 entries' = Ok r.
+Proof. exact build_sharded_perm. Qed.
+Print Assumptions C10_sharded_build_reproduced.
